@@ -68,6 +68,17 @@ def analyse(facts, crate="xml_info"):
             continue
         if any(n.get("k") == "MethodCall" and n["m"] == "add_item" for n in seq):
             reg_ctor.add(fid)
+    # ... and functions that return what such a constructor returned (XmlElement::empty -> XmlElement::node)
+    changed = True
+    while changed:
+        changed = False
+        for fid, seq in trees.items():
+            f = fns[fid]
+            if fid in reg_ctor or "Rc<XmlItem>" not in f.get("sig", "").split("->")[-1] or f["crate"] != crate:
+                continue
+            if any(n.get("k") in ("Call", "MethodCall") and any(c in reg_ctor for c in _callee_ids(facts, n)) for n in seq):
+                reg_ctor.add(fid)
+                changed = True
     # per function: parameters that reach a store without registration; local values stored unregistered
     needs = {}       # fid -> set(param index)
     local_bad = []   # (fid, node, what)
@@ -200,3 +211,70 @@ def rule(facts, res, rule_name, floor=4):
                         "report no parent.  Unregistered entries: %s" % (callee, ", ".join("%s:%s" % e for e in entries[:4])),
                         f["file"], f["line"], {"entries": [list(e) for e in entries]}))
     return st
+
+
+# ------------------------------------------------------------------------------------------
+# R12-8: a registered item needs a strong owner while a DOM wrapper of it is alive
+
+PARENT_KINDS = ("XmlElement", "XmlAttr", "XmlNode", "XmlDocumentFragment")
+
+
+def dangling(facts):
+    """xml_dom functions that obtain an Rc<XmlItem> from a registering constructor or from delete(), hand a typed wrapper of
+    the item to their caller and let the Rc itself go: from then on Context::node(id) of that item answers None, so every
+    child appended to it (or already below it) has no parent."""
+    a = analyse(facts)
+    out = []
+    dangling.with_source = 0
+    for fid, f in sorted(facts.fns.items(), key=lambda kv: kv[1]["path"]):
+        if f["crate"] != "xml_dom" or "body" not in f or f.get("derived") or "::tests::" in f["path"]:
+            continue
+        ret = f.get("sig", "").split("->")[-1] if "->" in f.get("sig", "") else ""
+        if not any(k in ret for k in PARENT_KINDS):
+            continue
+        seq = [x for x, _, _ in staleidx._walk_parents(f["body"])]
+        src = None
+        for n in seq:
+            if n.get("k") not in ("Call", "MethodCall"):
+                continue
+            ty = str(n.get("ty", ""))
+            if "Rc<XmlItem>" not in ty and "Rc<xml_info::XmlItem>" not in ty:
+                continue
+            ids = _callee_ids(facts, n)
+            name = n.get("m") or str(n.get("f", {}).get("path", ""))
+            if name in ("append", "insert_before", "insert_after", "insert_by_id"):
+                continue        # the item was just stored in a child vector: the tree owns it
+            if any(c in a["reg_ctor"] for c in ids) or name in ("delete", "delete_by_id") or name.endswith("::delete"):
+                src = n
+                break
+        if src is None:
+            continue
+        dangling.with_source += 1
+        # does the function keep the Rc (store it in a struct field of the returned value / pass it on to an insert)?
+        kept = False
+        for n in seq:
+            if n.get("k") == "Struct":
+                for fl in n.get("fields", []):
+                    if "Rc<XmlItem>" in str(fl.get("e", {}).get("ty", "")):
+                        kept = True
+            if n.get("k") == "MethodCall" and n["m"] in ("append", "insert_before", "insert_after", "append_attribute", "push"):
+                kept = kept or any("Rc<XmlItem>" in str(x.get("ty", "")) for x in n.get("args", []))
+        if not kept:
+            out.append((f, src))
+    return out
+
+
+def dangling_rule(facts, res, rule_name, floor=3):
+    st = res.rule(rule_name, instances=0)
+    ds = dangling(facts)
+    n_candidates = dangling.with_source
+    st["instances"] = n_candidates
+    res.oblige(n_candidates - len(ds), True)
+    res.oblige(len(ds), False)
+    for f, src in ds:
+        what = src.get("m") or str(src.get("f", {}).get("path", ""))
+        res.add(Finding(rule_name, f["path"], "%s obtains the item from %s as an Rc<XmlItem>, returns a wrapper of its inner cell and drops "
+                        "the Rc: the id registry (Weak<XmlItem>) has no strong owner for this item until it is inserted somewhere, so "
+                        "children below it report parent_node() = None" % (f["path"], what), f["file"], src.get("ln"), {}))
+    if n_candidates < floor:
+        raise BrokenCheck("%s: %d DOM functions return node wrappers (floor %d)" % (rule_name, n_candidates, floor))
